@@ -15,6 +15,7 @@ from fractions import Fraction
 from mon import refbufr as R
 from mon.compare import td_of, jsonable, opsig
 from mon.gen import cases
+from mon.gen import failures
 
 ID = 'C03'
 LEVEL = 'exploration'
@@ -387,6 +388,7 @@ def run(ctx):
                 continue
             if not ctx.more():
                 break
+            failures.maybe(ctx, [dec], [enc], every=6)
             element_contexts(ctx, enc, dec, B, eid, mtv)
             ctx.count('elements')
     fixpoint_own(ctx, enc, dec)
